@@ -172,18 +172,24 @@ Definition iso_enrich (fixd : bool) (q : iquery) (caller : irow) : option (bool 
   end.
 
 (* ---------- analytic functions (lag, one global partition) ----------
-   state: the previous argument value of every call.  An argument that is missing or NULL in the
-   row evaluates to the field's own name (observed behaviour of the engine; the subject of C14). *)
+   state: the last recorded argument value of every call.  Observed behaviour of the engine (the
+   subject of C14, followed here): a NULL argument is not recorded (the state is kept), an argument
+   column that is missing in the row is recorded as the column's own name. *)
 Definition istate := list ival.
-Definition iso_arg (w : irow) (f : bytes) : ival :=
+Definition iso_arg (w : irow) (f : bytes) (old : ival) : ival :=
   match iso_lookup f w with
-  | Some INull => IStr f
+  | Some INull => old
   | None => IStr f
   | Some v => v
   end.
 Definition iso_st0 (q : iquery) : istate := map (fun _ => INull) (iso_calls q).
+Fixpoint iso_next (w : irow) (calls : list (bytes * bytes)) (st : istate) : istate :=
+  match calls, st with
+  | c :: cs, s :: ss => iso_arg w (snd c) s :: iso_next w cs ss
+  | _, _ => []
+  end.
 Definition iso_analytic (st : istate) (calls : list (bytes * bytes)) (w : irow) : list (bytes * ival) * istate :=
-  (combine (map fst calls) st, map (fun c => iso_arg w (snd c)) calls).
+  (combine (map fst calls) st, iso_next w calls st).
 
 (* condition.Evaluate on the working map *)
 Definition iso_gt (v : option ival) (c : Z) : bool :=
